@@ -20,6 +20,13 @@ add("C12", "Coq theorems: after any number of lifetimes the injector's live mapp
 add("C17", "Coq theorems on the dirty-set (addresses written since last flushed): installation, drop and whole lifetimes end with no new dirty address, for every script and kernel; inject flushes exactly what it wrote. Tied by interposing __clear_cache with a content copy and checking, at every boundary, that each changed byte is covered by a later flush that saw the final byte.",
     "Trusted: Coq kernel; the model (correspondence); the __clear_cache interposer. Not modelled: macOS icache path, AArch64 dsb/isb.")
 
+add("C05", "Coq theorems for every script, every panic position and kind, every list of pending expectations and every kernel: at most one panic and the lock released unless scope exit aborted; scope exit never aborts/faults as long as mprotect does not fail from scope exit on; after unwinding the same `restored` predicate as C02 holds; a refused installation modifies nothing; a panicking installation leaves memory untouched outside its own trampoline. Tied by fault enumeration through the public API (12 skeletons x positions x 8 panic kinds, forked children, interposed mmap/mprotect failures, panic hook, lock probe from a fresh thread).",
+    "Trusted: Coq kernel; model of Rust unwinding/drop order and thread::panicking; interposers. Excluded: mprotect failing at restore time; non-unwinding ABIs.")
+add("C06", "Coq theorems over every schedule of atomic read-modify-write steps: exactly min(k,N) calls admitted (the first N), counter = number of matching calls, exit verdict iff k<>N naming both; load+store counter and off-by-one comparison refuted. Tied by sequential scripts vs the extracted lifetime machine and by barrier-released multi-thread runs (N in {0,1,2,3,7,64}, k in 0..N+2, 1-16 threads) vs the extracted Counter model.",
+    "Trusted: Coq kernel; fetch_add atomicity; the implementation is observed only under OS-produced schedules (the theorem covers all).")
+add("C07", "Coq theorem: a lifetime in which every counted fake is installed before it is called reports the same (memory, exit, panics, lock) whatever the call-site counters held before; the pinned no-reset behaviour is refuted by a witness. Tied by multi-lifetime histories through the same fake! call sites in one process vs the extracted machine with persistent counters.",
+    "Trusted: Coq kernel; one counter per call site models the macro's static. One evaluation of a site per lifetime.")
+
 def main():
     props = [json.loads(l) for l in open(os.path.join(V, "properties.jsonl"))]
     checks = [C[p["id"]] for p in props if p["id"] in C]
